@@ -12,39 +12,67 @@ Definition isdigit (l : list N) : bool := negb (length l =? 0)%nat && forallb is
 (* int(b) for a digit string *)
 Definition parse_dec (l : list N) : N := fold_left (fun acc d => acc * 10 + (d - 48)) l 0.
 
-(* result of read_binary_data and the unread rest of the stream *)
-Definition read_block (term_flag : bool) (term : list N) (s : list N) : res (list N) * list N :=
-  match take 2 s with
-  | None => (Err ETimeout, s)
-  | Some (header, s1) =>
-      match header with
-      | [h0; h1] =>
-          if negb (h0 =? 35) then (Err EInstr, s1)
-          else if negb (is_digit h1) then (Err EInstr, s1)
-          else
-            let nd := h1 - 48 in
-            if nd =? 0 then (Err EInstr, s1)
-            else match take nd s1 with
-            | None => (Err ETimeout, s1)
-            | Some (header2, s2) =>
-                if negb (isdigit header2) then (Err EInstr, s2)
-                else
-                  let nbytes := parse_dec header2 in
-                  match take nbytes s2 with
-                  | None => (Err ETimeout, s2)
-                  | Some (data, s3) =>
-                      if term_flag then
-                        match take (len term) s3 with
-                        | None => (Err ETimeout, s3)
-                        | Some (tail, s4) =>
-                            if bytes_eqb tail term then (Ok data, s4) else (Err EInstr, s4)
-                        end
-                      else (Ok data, s3)
-                  end
-            end
-      | _ => (Err EOutOfFuel, s1)    (* unreachable: take 2 returns two bytes *)
-      end
+(* read_binary_data over an abstract transport state S with rd n = transport.read(n): Some (exactly n
+   bytes, new state) or None (QMI_TimeoutException).  Returns the outcome and the transport state. *)
+Section Block.
+  Variable S : Type.
+  Variable rd : N -> S -> option (list N * S).
+
+  Definition read_block_g (term_flag : bool) (term : list N) (s : S) : res (list N) * S :=
+    match rd 2 s with
+    | None => (Err ETimeout, s)
+    | Some (header, s1) =>
+        match header with
+        | [h0; h1] =>
+            if negb (h0 =? 35) then (Err EInstr, s1)
+            else if negb (is_digit h1) then (Err EInstr, s1)
+            else
+              let nd := h1 - 48 in
+              if nd =? 0 then (Err EInstr, s1)
+              else match rd nd s1 with
+              | None => (Err ETimeout, s1)
+              | Some (header2, s2) =>
+                  if negb (isdigit header2) then (Err EInstr, s2)
+                  else
+                    let nbytes := parse_dec header2 in
+                    match rd nbytes s2 with
+                    | None => (Err ETimeout, s2)
+                    | Some (data, s3) =>
+                        if term_flag then
+                          match rd (len term) s3 with
+                          | None => (Err ETimeout, s3)
+                          | Some (tail, s4) =>
+                              if bytes_eqb tail term then (Ok data, s4) else (Err EInstr, s4)
+                          end
+                        else (Ok data, s3)
+                    end
+              end
+        | _ => (Err EOutOfFuel, s1)    (* unreachable: read(2) returns two bytes *)
+        end
+    end.
+End Block.
+
+(* the transport as one byte stream *)
+Definition read_block : bool -> list N -> list N -> res (list N) * list N := read_block_g (list N) take.
+
+(* the transport as a read buffer plus the transfers the device has yet to deliver, in order; read(n)
+   receives further transfers until n bytes are buffered (what every QMI_Transport.read does) *)
+Definition cstate := (list N * list (list N))%type.
+Fixpoint cfill (n : N) (buf : list N) (pend : list (list N)) : cstate :=
+  match pend with
+  | [] => (buf, [])
+  | c :: r => if len buf <? n then cfill n (buf ++ c) r else (buf, pend)
   end.
+Definition ctake (n : N) (st : cstate) : option (list N * cstate) :=
+  let '(b, p) := cfill n (fst st) (snd st) in
+  if len b <? n then None else Some (firstn (N.to_nat n) b, (skipn (N.to_nat n) b, p)).
+Definition cflat (st : cstate) : list N := fst st ++ concat (snd st).
+Definition read_block_chunked (flag : bool) (term : list N) (transfers : list (list N)) : res (list N) * cstate :=
+  read_block_g cstate ctake flag term ([], transfers).
+
+(* ScpiProtocol.write: cmd.encode("ascii") + terminator, one transport.write *)
+Definition scpi_write (cmd cterm : list N) : res (list (list N)) :=
+  if negb (forallb (fun c => c <? 128) cmd) then Err EUniEnc else Ok [cmd ++ cterm].
 
 (* ask: cmd is the list of code points of the python str; reply = what read_until returned *)
 Inductive reply := RTimeout | RMsg (b : list N).
